@@ -115,6 +115,13 @@ def _gen_formula(rng):
                     labels.append("w({},{})")
                 f["groups"].append({"op": "block", "ranges": ranges,
                                     "label": rng.choice(labels)})
+    if rng.random() < 0.15:
+        # insertions that the formula refuses, somewhere in its history:
+        # what is stored afterwards is the formula without them
+        f["refused"] = [[rng.randint(0, len(clauses)),
+                         rng.choice([[1, 0], [0], [1, "x"], [2, 0, 3],
+                                     [None], [0, 0]])]
+                        for _ in range(rng.choice([1, 1, 2]))]
     return f
 
 
@@ -250,8 +257,17 @@ def build_formula(f, ctx):
         else:
             F.new_block(*g["ranges"], label=g["label"])
     F.update_variable_number(f["n"])
-    for c in f["clauses"]:
+    refused = {}
+    for pos, bad in f.get("refused") or []:
+        refused.setdefault(pos, []).append(bad)
+    for i, c in enumerate(f["clauses"]):
+        for bad in refused.get(i, []):
+            if call(F.add_clause, list(bad))[0] == "exc":
+                ctx.fault("refused_insertion_in_history")
         F.add_clause(list(c))
+    for bad in refused.get(len(f["clauses"]), []):
+        if call(F.add_clause, list(bad))[0] == "exc":
+            ctx.fault("refused_insertion_in_history")
     for k, v in f["header"].items():
         F.header[k] = v
     return F
